@@ -50,8 +50,8 @@ PROPS = {
     },
     "C16": {
         "harnesses": [
-            {"pkg": "bt", "name": "VH_C16_TxJSON", "quick": {"params": {"IN": 1, "OUT": 1}}, "thorough": {"params": {"IN": 2, "OUT": 2}}},
-            {"pkg": "bt", "name": "VH_C16_TxNodeJSON", "quick": {"params": {"IN": 1, "OUT": 1}}, "thorough": {"params": {"IN": 2, "OUT": 2}}},
+            {"pkg": "bt", "name": "VH_C16_TxJSON", "quick": {"params": {"IN": 1, "OUT": 1, "INSC": 0}}, "thorough": {"params": {"IN": 2, "OUT": 2, "INSC": 0}}},
+            {"pkg": "bt", "name": "VH_C16_TxNodeJSON", "quick": {"params": {"IN": 1, "OUT": 1, "INSC": 0}}, "thorough": {"params": {"IN": 2, "OUT": 2, "INSC": 1}}},
             {"pkg": "bt", "name": "VH_C16_OutputUTXO", "fp_dual": True},
         ],
         "assumptions": [],
